@@ -75,8 +75,9 @@ func machineID() string {
 	return strings.TrimSpace(string(b))
 }
 
-// judge evaluates every oracle on the output file, from the generated history alone.
-func judge(sc *scenario, output []byte) verdict {
+// judge evaluates every oracle on the output file, from the generated history alone (storm: how many lines of the
+// sshd burst the run wrote, see scenario.Big).
+func judge(sc *scenario, output []byte, storm int) verdict {
 	var v verdict
 	add := func(key, format string, a ...any) {
 		v.Problems = append(v.Problems, problem{key, fmt.Sprintf(format, a...)})
@@ -281,7 +282,14 @@ func judge(sc *scenario, output []byte) verdict {
 	}
 	want := map[string]int{}
 	kindOf := map[string]string{}
-	for _, s := range sc.Sshd {
+	written := sc.Sshd
+	if storm > 0 {
+		written = append([]sshdItem{}, sc.Sshd...)
+		for i := 0; i < storm; i++ {
+			written = append(written, stormItem(i))
+		}
+	}
+	for _, s := range written {
 		k := loginKey(fmt.Sprint(s.PID), s.User, s.outcome(), s.Addr, s.Port, s.userID())
 		want[k]++
 		kindOf[k] = s.Kind
